@@ -22,7 +22,16 @@
   Field declarations are abstract: a field is a self-contained typedpy field (`prim tag`, opaque,
   behaviour fixed by its tag), an implicit wrapper of a non-typedpy user class (`wrap name ty`, the
   result of `Field[U]` / `Array[U]`; `ty` is the identity of `U`, `name` its `__name__`), or a
-  reference to an earlier Structure class (`ref c`).
+  reference to an earlier Structure class (`ref c`, direct or `Array[C]`, possibly optional).
+
+  NESTED effects are in the model: `aggregate_serialization_mappers(A)` fills the cache for every class
+  `A` refers to (recursively, before its own entry); `_structure_simplicity_level(A)` memoises the
+  referenced classes it visits; `create_serializer(A)` generates and installs, with default flags, the
+  serializer of every referenced FastSerializable class that does not resolve to one yet (looked up
+  through the MRO), in field order, before installing `A`'s own; the serializer closure binds the mapped
+  keys and the `serialize_none` / `compact` flags at generation time and looks the referenced classes'
+  `serialize` up at every call (`refSers` in the behaviour).  Recursion over the class graph uses the
+  number of defined classes as fuel (references point to earlier definitions).
 -/
 import TypedpyModel.Sem.WorldTables
 namespace Typedpy.World
@@ -79,6 +88,9 @@ structure FieldSpec where
   trustedOk : Bool     -- field is in the trusted-deserialization whitelist
   schemaOk : Bool      -- `convert_to_schema` can map the field (it raises for implicit wrappers)
   inlines : Nat        -- number of StructureReference(...) occurrences (each bumps the counter)
+  arr : Bool := false       -- `Array[...]` of the wrapped / referenced class
+  optional : Bool := false  -- listed in `_optional`: not required although it has no default
+  subKeys : List (String × String) := []  -- owner-side names for keys of the referenced class ("<field>._mapper")
   deriving DecidableEq, Repr
 
 inductive Parent
@@ -109,12 +121,27 @@ structure Core where
   kwargs : Bool                -- `__signature__` has `**kwargs`
   addPropsAttr : Option Bool   -- `getattr(cls, "_additionalProperties")`: own or inherited through bases
   simple : Bool                -- `_structure_simplicity_level` verdict
+  ancestors : List ClassId     -- the classes `cls` inherits from (class D(C)), nearest first: the MRO `getattr` walks
+  deriving DecidableEq, Repr
+
+/-- the flags `create_serializer` binds into the generated closure -/
+structure SerFlags where
+  serNone : Bool     -- `serialize_none=True`: None values are emitted
+  compact : Bool     -- `compact=True`: a one-field class serializes to the bare value
+  deriving DecidableEq, Repr
+
+def SerFlags.plain : SerFlags := ⟨false, false⟩
+
+/-- a generated serializer: what the closure bound at generation time -/
+structure Ser where
+  keys : List String     -- the mapped keys, in field order
+  flags : SerFlags
   deriving DecidableEq, Repr
 
 structure Entry where
   core : Core
   required : List String             -- `cls._required` (live list object)
-  serializer : Option (List String)  -- `cls.__dict__['serialize']`: keys the installed serializer emits
+  serializer : Option Ser            -- `cls.__dict__['serialize']`: the installed generated serializer
   createdFast : Bool                 -- `cls.__dict__['_created_fast_serializer']`
   deriving DecidableEq, Repr
 
@@ -173,7 +200,7 @@ def hasDefaultIn (fs : List FieldSpec) (n : String) : Bool :=
   fs.any fun f => f.name == n && f.hasDefault
 
 def ownRequired (fs : List FieldSpec) : List String :=
-  (fs.filter fun f => !f.hasDefault).map (·.name)
+  (fs.filter fun f => !f.hasDefault && !f.optional).map (·.name)
 
 /-- derived classes do not copy serialization mappers -/
 def unmapped (fs : List FieldSpec) : List FieldSpec :=
@@ -223,8 +250,18 @@ def fieldSimple (classes : List (ClassId × Entry)) (f : FieldSpec) : Bool :=
     | none => false
   | _ => f.trustedOk
 
+/-- `create_serializer` eligibility of a field given the class table: a (direct / Array) reference is
+    eligible iff the referenced class is FastSerializable and its own serializer can be generated
+    (`_verify_is_fast_serializable` generates it when the class does not resolve to one yet) -/
+def fieldFast (classes : List (ClassId × Entry)) (f : FieldSpec) : Bool :=
+  match f.kind with
+  | .ref c => match alookup c classes with
+    | some e => e.core.src.fast && e.core.fields.all (·.fastOk)
+    | none => false
+  | _ => f.fastOk
+
 def resolveSimple (classes : List (ClassId × Entry)) (f : FieldSpec) : FieldSpec :=
-  { f with trustedOk := fieldSimple classes f }
+  { f with trustedOk := fieldSimple classes f, fastOk := fieldFast classes f }
 
 def lookupParent (classes : List (ClassId × Entry)) : Option Parent → Option (Option PInfo)
   | none => some none
@@ -244,6 +281,12 @@ def baseSigClash (flags : Flags) (src : ClassSrc) : Option PInfo → Bool
 
 def totalInlines (fs : List FieldSpec) : Nat := (fs.map (·.inlines)).sum
 
+/-- the MRO above the new class: `class D(C)` inherits what is looked up on `C`; derived classes made by
+    Omit / Pick / Partial / AllFieldsRequired / Extend are new classes, not subclasses -/
+def ancestorsOf : Option PInfo → List ClassId
+  | some (.inherit p, pc, _) => p :: pc.ancestors
+  | _ => []
+
 /-- the entry `StructMeta.__new__` creates -/
 def elabClass (cfg : Config) (w : World) (src : ClassSrc) (pe : Option PInfo) : Entry :=
   let own := ((resolveFields cfg w.wrappers src.fields).2).map (resolveSimple w.classes)
@@ -252,7 +295,8 @@ def elabClass (cfg : Config) (w : World) (src : ClassSrc) (pe : Option PInfo) : 
               sigRequired := (fnames info.1).filter fun n => info.2.contains n,
               kwargs := src.addProps.getD w.flags.addProps,
               addPropsAttr := addPropsAttrOf src.addProps pe,
-              simple := info.1.all (·.trustedOk) },
+              simple := info.1.all (·.trustedOk),
+              ancestors := ancestorsOf pe },
     required := info.2, serializer := none, createdFast := false }
 
 /-! ### observations -/
@@ -274,6 +318,7 @@ inductive Arg
   | inst (ty : TypeId)                -- an instance of a non-typedpy user class
   | struct (c : ClassId)              -- an instance of a Structure class
   | structs (cs : List ClassId)       -- a list of instances of these Structure classes, in order
+  | noItems                           -- an empty list
   deriving DecidableEq, Repr
 
 def argOk (f : FieldSpec) : Arg → Bool
@@ -281,6 +326,7 @@ def argOk (f : FieldSpec) : Arg → Bool
   | .inst ty => (match f.kind with | .wrap _ t => t == ty | _ => false)
   | .struct c => (match f.kind with | .ref r => r == c | _ => false)
   | .structs cs => (match f.kind with | .refs rs => rs == cs | _ => false)
+  | .noItems => f.arr
 
 /-! ### what a class does: its behaviour, read from the world -/
 
@@ -294,7 +340,10 @@ structure Behaviour where
   failFast : Bool
   serMapper : List (String × String)  -- key mapping used by serialize / schema / create_serializer
   serMapperCamel : List (String × String)  -- key mapping used by serialize(…, camel_case_convert=True)
-  fastKeys : Option (List String)     -- keys emitted by `x.serialize()` of a FastSerializable class
+  instantiable : Bool                 -- a FastSerializable class whose serializer cannot be generated raises from `__init__`
+  fastSer : Option Ser                -- `x.serialize()` of a FastSerializable class: keys and flags of its serializer
+  refSers : List (String × Option Ser) -- per (direct / Array) class-reference field: the serializer the referenced
+                                      -- class's instances are serialized with, looked up at call time
   trusted : Bool                      -- trusted deserialization shortcut taken
   schemaRequired : List String        -- "required" emitted by structure_to_schema
   deriving DecidableEq, Repr
@@ -319,6 +368,21 @@ def mappedKey (m : List (String × String)) (n : String) : String := (alookup n 
 def fastKeysNow (cfg : Config) (w : World) (c : ClassId) (e : Entry) : List String :=
   (fnames e.core.fields).map (mappedKey (serMapper cfg w c e false))
 
+/-- the serializer instances of a FastSerializable class are serialized with: the installed one, else the
+    one its first instance generates (`FastSerializable.__init__`: default flags, the keys mapped now) -/
+def fastSerOf (cfg : Config) (w : World) (c : ClassId) (e : Entry) : Option Ser :=
+  if e.core.src.fast then some (e.serializer.getD ⟨fastKeysNow cfg w c e, .plain⟩) else none
+
+def fastSerAt (cfg : Config) (w : World) (b : ClassId) : Option Ser :=
+  match alookup b w.classes with
+  | some eb => fastSerOf cfg w b eb
+  | none => none
+
+/-- the classes referenced directly or through `Array[...]` (these are followed by `create_serializer` and
+    by nested serialization) -/
+def refFields (fs : List FieldSpec) : List (String × ClassId) :=
+  fs.filterMap fun f => match f.kind with | .ref b => some (f.name, b) | _ => none
+
 /-- `_generate_schema_for_fields_internal` on the list object held in `cls._required`, field by field:
     a required key is replaced by its mapped key; then the field is converted (an unmappable field
     raises here and ends the walk, leaving the earlier writes in place); then a defaulted field's
@@ -341,31 +405,6 @@ def schemaRequiredOf (m : List (String × String)) (extras : Bool) (fs : List Fi
 /-- `getattr(cls, "_additionalProperties", TypedPyDefaults.additional_properties_default)` -/
 def extrasOf (w : World) (e : Entry) : Bool := e.core.addPropsAttr.getD w.flags.addProps
 
-def behaviourOf (cfg : Config) (w : World) (c : ClassId) (e : Entry) : Behaviour where
-  fields := e.core.fields
-  sigRequired := e.core.sigRequired
-  required := e.required
-  kwargs := e.core.kwargs
-  extras := extrasOf w e
-  compact := w.flags.compact
-  failFast := w.flags.failFast
-  serMapper := serMapper cfg w c e false
-  serMapperCamel := serMapper cfg w c e true
-  fastKeys := if e.core.src.fast then some (e.serializer.getD (fastKeysNow cfg w c e)) else none
-  trusted := trustedOf cfg w c e
-  schemaRequired := schemaRequiredOf (serMapper cfg w c e false) (extrasOf w e) e.core.fields e.required
-
-def view (cfg : Config) (w : World) (c : ClassId) : Option Behaviour :=
-  (alookup c w.classes).map (behaviourOf cfg w c)
-
-/-- the constructor's decision, as a function of the behaviour -/
-def acceptsKw (b : Behaviour) (kw : List (String × Arg)) : Bool :=
-  b.sigRequired.all (fun r => (alookup r kw).isSome) &&
-  kw.all fun (n, a) =>
-    match b.fields.find? (fun f => f.name == n) with
-    | some f => argOk f a
-    | none => b.kwargs
-
 /-! ### operations -/
 
 inductive WorldOp
@@ -374,10 +413,10 @@ inductive WorldOp
   | serialize (c : ClassId) (kw : List (String × Arg)) (camel : Bool)   -- construct an instance from `kw`, serialize it with `camel_case_convert=camel`
   | deserialize (c : ClassId) (kw : List (String × Arg))
   | toSchema (c : ClassId)
-  | createSerializer (c : ClassId)
+  | createSerializer (c : ClassId) (fl : SerFlags)   -- create_serializer(cls, serialize_none=…, compact=…)
   | trustedDeserialize (c : ClassId) (kw : List (String × Arg))
   | setDefault (f : Flag) (b : Bool)
-  deriving Repr
+  deriving DecidableEq, Repr
 
 def setEntry (w : World) (c : ClassId) (e : Entry) : World :=
   { w with classes := (c, e) :: w.classes }
@@ -414,40 +453,170 @@ def installTarget (cfg : Config) (c : ClassId) (e : Entry) : ClassId :=
     | _ => c
   else c
 
-/-- `aggregate_serialization_mappers(cls)`: fill the cache on a miss -/
+/-- apply `rec` to the listed classes, left to right -/
+def eachClass (rec : World → ClassId → World) : World → List ClassId → World
+  | w, [] => w
+  | w, b :: bs => eachClass rec (rec w b) bs
+
+def fieldRefs (fs : List FieldSpec) : List ClassId := fs.flatMap fun f => kindRefs f.kind
+
+/-- `aggregate_serialization_mappers(cls)` for a class reached from another one (`_set_base_mapper_no_op`
+    resolves the mapper of every class a field refers to — direct, Array item, positional items — before the
+    class's own entry is stored): on a hit nothing happens -/
+def fillMapperDeep (cfg : Config) : Nat → World → ClassId → Bool → World
+  | 0, w, _, _ => w
+  | n + 1, w, c, camel =>
+    match alookup c w.classes with
+    | none => w
+    | some e =>
+      match alookup (mkey cfg c e camel) w.mapperCache with
+      | some _ => w
+      | none =>
+        { eachClass (fun w b => fillMapperDeep cfg n w b false) w (fieldRefs e.core.fields) with
+          mapperCache := (mkey cfg c e camel, mapperOf e camel) ::
+            (eachClass (fun w b => fillMapperDeep cfg n w b false) w (fieldRefs e.core.fields)).mapperCache }
+termination_by structural n => n
+
+/-- `aggregate_serialization_mappers(cls)`: fill the cache on a miss, the referenced classes first -/
 def fillMapper (cfg : Config) (w : World) (c : ClassId) (e : Entry) (camel : Bool := false) : World :=
   match alookup (mkey cfg c e camel) w.mapperCache with
   | some _ => w
-  | none => { w with mapperCache := (mkey cfg c e camel, mapperOf e camel) :: w.mapperCache }
+  | none =>
+    { eachClass (fun w b => fillMapperDeep cfg w.classes.length w b false) w (fieldRefs e.core.fields) with
+      mapperCache := (mkey cfg c e camel, mapperOf e camel) ::
+        (eachClass (fun w b => fillMapperDeep cfg w.classes.length w b false) w (fieldRefs e.core.fields)).mapperCache }
 
-def fillSimplicity (cfg : Config) (w : World) (c : ClassId) (e : Entry) : World :=
-  match alookup (skey cfg c e) w.simplicityCache with
-  | some _ => w
-  | none => { w with simplicityCache := (skey cfg c e, e.core.simple) :: w.simplicityCache }
+/-- the fields `_structure_simplicity_level` visits: it returns at the first field that is not simple -/
+def simplePrefix : List FieldSpec → List FieldSpec
+  | [] => []
+  | f :: fs => if f.trustedOk then f :: simplePrefix fs else [f]
 
-/-- `create_serializer` succeeds only when every field is fast-serializable -/
+/-- `_structure_simplicity_level(cls)` (lru_cache): on a miss the referenced classes it visits are memoised
+    first (a direct / Array reference is followed; the walk ends at the first field that is not simple) -/
+def fillSimplicityDeep (cfg : Config) : Nat → World → ClassId → World
+  | 0, w, _ => w
+  | n + 1, w, c =>
+    match alookup c w.classes with
+    | none => w
+    | some e =>
+      match alookup (skey cfg c e) w.simplicityCache with
+      | some _ => w
+      | none =>
+        { eachClass (fun w b => fillSimplicityDeep cfg n w b) w ((refFields (simplePrefix e.core.fields)).map (·.2)) with
+          simplicityCache := (skey cfg c e, e.core.simple) ::
+            (eachClass (fun w b => fillSimplicityDeep cfg n w b) w
+              ((refFields (simplePrefix e.core.fields)).map (·.2))).simplicityCache }
+termination_by structural n => n
+
+def fillSimplicity (cfg : Config) (w : World) (c : ClassId) (_e : Entry) : World :=
+  fillSimplicityDeep cfg (w.classes.length + 1) w c
+
+/-- `create_serializer` succeeds only when every field is fast-serializable (for a class reference:
+    resolved at definition, `fieldFast`) -/
 def fastAble (e : Entry) : Bool := e.core.fields.all (·.fastOk)
 
-/-- `create_serializer(cls)`: resolves the mapper first (cache fill), raises for a field it cannot
-    handle, otherwise writes `serialize` and `_created_fast_serializer` onto the target class -/
-def installW (cfg : Config) (w : World) (c : ClassId) (e : Entry) : World :=
-  let w1 := fillMapper cfg w c e
-  let t := installTarget cfg c e
-  if fastAble e then
-    match alookup t w1.classes with
-    | none => w1
-    | some et => setEntry w1 t { et with serializer := some (fastKeysNow cfg w1 c e), createdFast := true }
-  else w1
+/-- `getattr(cls, "serialize")`: the class's own generated serializer, else the nearest inherited one
+    (`none` = the `FastSerializable.serialize` placeholder) -/
+def resolveSer (w : World) (e : Entry) : Option Ser :=
+  match e.serializer with
+  | some s => some s
+  | none => e.core.ancestors.findSome? fun a => (alookup a w.classes).bind (·.serializer)
+
+/-- `_verify_is_fast_serializable`: a referenced FastSerializable class that resolves to the placeholder
+    gets its serializer generated now -/
+def needsSer (w : World) (b : ClassId) : Bool :=
+  match alookup b w.classes with
+  | some eb => eb.core.src.fast && (resolveSer w eb).isNone
+  | none => false
+
+/-- `getattr(B, "serialize") is not FastSerializable.serialize` for a defined FastSerializable class `B` -/
+def resolvesNow (w : World) (b : ClassId) : Bool :=
+  match alookup b w.classes with
+  | some eb => eb.core.src.fast && (resolveSer w eb).isSome
+  | none => false
+
+/-- write `serialize` / `_created_fast_serializer` onto class `t` -/
+def setSer (w : World) (t : ClassId) (s : Ser) : World :=
+  match alookup t w.classes with
+  | none => w
+  | some et => setEntry w t { et with serializer := some s, createdFast := true }
+
+/-- the field walk of `create_serializer`: a self-contained field must be fast-serializable; a (direct /
+    Array) reference to class `B` passes when `B`'s serializer can be generated (`f.fastOk`, resolved at
+    definition) — it is generated now, with default flags, if `B` resolves to the placeholder — OR when `B`
+    already resolves to a generated serializer, its own or an INHERITED one (then `B` itself is not looked
+    at).  Returns the world after the nested generations and whether the walk got through. -/
+def verifyFields (rec : World → ClassId → World) : World → List FieldSpec → World × Bool
+  | w, [] => (w, true)
+  | w, f :: fs =>
+    match f.kind with
+    | .ref b =>
+      if f.fastOk || resolvesNow w b then verifyFields rec (if needsSer w b then rec w b else w) fs
+      else (w, false)
+    | _ => if f.fastOk then verifyFields rec w fs else (w, false)
+
+/-- `create_serializer(cls, **flags)`: resolves the mapper first (cache fills, referenced classes included),
+    walks the fields (`verifyFields`), and when the walk gets through writes `serialize` (keys mapped now,
+    flags bound) and `_created_fast_serializer` onto the target class.  The Boolean is "did not raise". -/
+def createW (cfg : Config) : Nat → World → ClassId → SerFlags → World × Bool
+  | 0, w, _, _ => (w, false)
+  | n + 1, w, c, fl =>
+    match alookup c w.classes with
+    | none => (w, false)
+    | some e =>
+      if (verifyFields (fun w b => (createW cfg n w b .plain).1) (fillMapper cfg w c e) e.core.fields).2 then
+        (setSer (verifyFields (fun w b => (createW cfg n w b .plain).1) (fillMapper cfg w c e) e.core.fields).1
+          (installTarget cfg c e)
+          ⟨fastKeysNow cfg (verifyFields (fun w b => (createW cfg n w b .plain).1) (fillMapper cfg w c e) e.core.fields).1 c e, fl⟩,
+         true)
+      else ((verifyFields (fun w b => (createW cfg n w b .plain).1) (fillMapper cfg w c e) e.core.fields).1, false)
+termination_by structural n => n
+
+def installW (cfg : Config) (w : World) (c : ClassId) (fl : SerFlags := .plain) : World :=
+  (createW cfg (w.classes.length + 1) w c fl).1
+
+/-- would `create_serializer(cls)` get through now -/
+def creatableNow (cfg : Config) (w : World) (c : ClassId) : Bool :=
+  (createW cfg (w.classes.length + 1) w c .plain).2
 
 /-- `FastSerializable.__init__` (runs at the END of a successful `Structure.__init__`) and
     `serialize_internal`: create the serializer unless the class has its own -/
 def autoInstallW (cfg : Config) (w : World) (c : ClassId) (e : Entry) : World :=
-  if e.core.src.fast && e.serializer.isNone then installW cfg w c e else w
+  if e.core.src.fast && e.serializer.isNone then installW cfg w c else w
+
+/-! ### what a class does, assembled -/
+
+def behaviourOf (cfg : Config) (w : World) (c : ClassId) (e : Entry) : Behaviour where
+  fields := e.core.fields
+  sigRequired := e.core.sigRequired
+  required := e.required
+  kwargs := e.core.kwargs
+  extras := extrasOf w e
+  compact := w.flags.compact
+  failFast := w.flags.failFast
+  serMapper := serMapper cfg w c e false
+  serMapperCamel := serMapper cfg w c e true
+  instantiable := !e.core.src.fast || e.serializer.isSome || creatableNow cfg w c
+  fastSer := fastSerOf cfg w c e
+  refSers := (refFields e.core.fields).map fun p => (p.1, fastSerAt cfg w p.2)
+  trusted := trustedOf cfg w c e
+  schemaRequired := schemaRequiredOf (serMapper cfg w c e false) (extrasOf w e) e.core.fields e.required
+
+def view (cfg : Config) (w : World) (c : ClassId) : Option Behaviour :=
+  (alookup c w.classes).map (behaviourOf cfg w c)
+
+/-- the constructor's decision, as a function of the behaviour -/
+def acceptsKw (b : Behaviour) (kw : List (String × Arg)) : Bool :=
+  b.sigRequired.all (fun r => (alookup r kw).isSome) &&
+  kw.all fun (n, a) =>
+    match b.fields.find? (fun f => f.name == n) with
+    | some f => argOk f a
+    | none => b.kwargs
 
 /-- keyword construction: decision and effect.  A FastSerializable class whose serializer cannot
     be created raises TypeError from `__init__`. -/
 def constructOk (cfg : Config) (w : World) (c : ClassId) (e : Entry) (kw : List (String × Arg)) : Bool :=
-  acceptsKw (behaviourOf cfg w c e) kw && (!e.core.src.fast || e.serializer.isSome || fastAble e)
+  acceptsKw (behaviourOf cfg w c e) kw && (behaviourOf cfg w c e).instantiable
 
 def constructW (cfg : Config) (w : World) (c : ClassId) (e : Entry) (kw : List (String × Arg)) : World :=
   if acceptsKw (behaviourOf cfg w c e) kw then autoInstallW cfg w c e else w
@@ -459,6 +628,12 @@ def schemaW (cfg : Config) (w : World) (c : ClassId) (e : Entry) : World × Obs 
   if cfg.schemaWritesRequired && req != e.required then
     (setEntry w1 c { e with required := req }, { Obs.ok with keys := req, wrote := true })
   else (w1, { Obs.ok with keys := req })
+
+/-- the keys `x.serialize()` emits for an instance built from `kw`: a field that was not supplied and has no
+    default is None, which the generated serializer drops unless it was generated with `serialize_none` -/
+def emittedKeys (e : Entry) (kw : List (String × Arg)) (s : Ser) : List String :=
+  ((e.core.fields.zip s.keys).filter fun p =>
+      s.flags.serNone || (alookup p.1.name kw).isSome || p.1.hasDefault).map (·.2)
 
 def withClass (w : World) (c : ClassId) (k : Entry → World × Obs) : World × Obs :=
   match alookup c w.classes with
@@ -479,10 +654,14 @@ def stepW (cfg : Config) (w : World) : WorldOp → World × Obs
       (if constructOk cfg w c e kw && !e.core.src.fast then fillMapper cfg (constructW cfg w c e kw) c e camel
        else constructW cfg w c e kw,
        { Obs.ok with accepted := constructOk cfg w c e kw,
-                     keys := if e.core.src.fast then e.serializer.getD (fastKeysNow cfg w c e)
-                             else (fnames e.core.fields).map (mappedKey (serMapper cfg w c e camel)) })
-  | .createSerializer c => withClass w c fun e =>
-      (installW cfg w c e, { Obs.ok with accepted := fastAble e, keys := fastKeysNow cfg w c e })
+                     keys := if e.core.src.fast then emittedKeys e kw ((fastSerOf cfg w c e).getD ⟨[], .plain⟩)
+                             else ((fnames e.core.fields).filter (fun n => (alookup n kw).isSome || hasDefaultIn e.core.fields n)).map
+                                    (mappedKey (serMapper cfg w c e camel)) })
+  | .createSerializer c fl => withClass w c fun _ =>
+      (installW cfg w c fl, { Obs.ok with accepted := (createW cfg (w.classes.length + 1) w c fl).2,
+                                          keys := (match alookup c (installW cfg w c fl).classes with
+                                                   | some e' => (e'.serializer.map (·.keys)).getD []
+                                                   | none => []) })
   | .toSchema c => withClass w c fun e => schemaW cfg w c e
   | .setDefault f b => ({ w with flags := w.flags.set f b }, Obs.ok)
 
@@ -509,7 +688,17 @@ def keepOp (T : ClassId → Bool) : WorldOp → Bool
   | .setDefault _ _ => true
   | _ => false
 
-def slice (T : ClassId → Bool) (h : List WorldOp) : List WorldOp := h.filter (keepOp T)
+/-- an explicit `create_serializer(cls, serialize_none=… / compact=…)` is CONFIGURATION of `cls` (documented to
+    change how the class serializes), and so is a later plain `create_serializer(cls)` that resets it: these
+    stay in the sub-history of a class set that contains `cls`.  `K` = the classes configured so far. -/
+def sliceK (T : ClassId → Bool) : List ClassId → List WorldOp → List WorldOp
+  | _, [] => []
+  | K, .createSerializer c fl :: h =>
+    if T c && (fl != SerFlags.plain || K.contains c) then .createSerializer c fl :: sliceK T (c :: K) h
+    else sliceK T K h
+  | K, op :: h => if keepOp T op then op :: sliceK T K h else sliceK T K h
+
+def slice (T : ClassId → Bool) (h : List WorldOp) : List WorldOp := sliceK T [] h
 
 /-- `T` contains, with every class it keeps, the classes that class's definition reads -/
 def closedOp (T : ClassId → Bool) : WorldOp → Bool
@@ -541,7 +730,19 @@ def hasRef (e : Entry) : Bool :=
     model does not follow ClassReference fields into the referenced classes' `_required`, is not
     applied to a class with such fields while the in-place write exists).  Every step is quiet when
     `cfg.schemaWritesRequired` is off, which is the case for the current tree. -/
+def refsCreatable (e : Entry) : Bool :=
+  e.core.fields.all fun f => match f.kind with | .ref _ => f.fastOk | _ => true
+
 def quietStep (cfg : Config) (w : World) : WorldOp → Bool
+  | .define c src =>       -- known finding (mro-resolved-serialize-skips-generation): a FastSerializable class may refer only
+                           -- to FastSerializable classes whose serializer can be generated
+    (match alookup c (defineW cfg w c src).1.classes with
+     | some e => !e.core.src.fast || refsCreatable e
+     | none => true)
+  | .createSerializer c _ =>
+    (match alookup c w.classes with
+     | some e => refsCreatable e
+     | none => true)
   | .toSchema c => !cfg.schemaWritesRequired ||
     (match alookup c w.classes with
      | none => true
